@@ -2362,17 +2362,21 @@ impl KotoVm {
         rhs: KValue,
         op: KValue,
     ) -> Result<bool> {
-        self.call_overridden_op_2(None, lhs, rhs, op)?;
-        self.frame_mut().execution_barrier = true;
-        match self.execute_instructions() {
-            Ok(result) => match result {
-                KValue::Bool(result) => Ok(result),
-                unexpected => unexpected_type("Bool", &unexpected),
-            },
-            Err(error) => {
-                self.pop_frame(KValue::Null)?;
-                Err(error)
-            }
+        let old_frame_count = self.call_stack.len();
+
+        // The op might be a native function, which gets called immediately without a frame being
+        // pushed, so a temporary register is needed to receive its result.
+        let result_register = self.new_frame_base()?;
+        self.registers.push(KValue::Null);
+
+        if let Err(error) = self.call_overridden_op_2(Some(result_register), lhs, rhs, op) {
+            self.truncate_registers(result_register);
+            return Err(error);
+        }
+
+        match self.get_overridden_op_result(old_frame_count, result_register)? {
+            KValue::Bool(result) => Ok(result),
+            unexpected => unexpected_type("Bool", &unexpected),
         }
     }
 
@@ -4270,6 +4274,7 @@ mod macros {
     macro_rules! call_metamap_arithmetic_op {
         ($self:expr, $op:ident, $op_rhs:ident, $trait_fn:ident, $trait_fn_rhs:ident, $map:expr, $lhs:expr, $rhs:expr, $result_register:expr) => {{
             let op = $map.get_meta_value(&$op.into()).unwrap();
+            let old_frame_count = $self.call_stack.len();
 
             // Call the map's op function
             $self.call_overridden_op_2(
@@ -4278,6 +4283,12 @@ mod macros {
                 $rhs.clone(),
                 op,
             )?;
+
+            if $self.call_stack.len() == old_frame_count {
+                // No frame was pushed, so the op was a native function (or a generator) that has
+                // already been called, with its result placed in the result register.
+                return Ok(());
+            }
 
             // Execute the function immediately so that we can check for `koto.unimplemented` errors
             // - Enable the execution barrier on the function's frame so errors aren't propagated
